@@ -37,7 +37,11 @@ class Link(Edge):
 
         self.user_libs = libs
         forward_opts = opts.ForwardOptions.recurse(self.user_libs)
-        self.libs = self.user_libs + forward_opts.libs
+        # Keep the *last* occurrence of each library: every library is
+        # followed by the expansion of its own dependencies, so this puts
+        # each static library before everything it depends on.
+        all_libs = self.user_libs + forward_opts.libs
+        self.libs = uniques(all_libs[::-1])[::-1]
 
         self.user_packages = packages
         self.packages = self.user_packages + forward_opts.packages
